@@ -631,7 +631,7 @@ pub fn property(_tier: Tier) -> Property {
             Box::new(RandomPart {
                 name: "random",
                 rule: "proptest: row uniformly, parameters from the grid values mixed with random numbers, durations around the .4995/.5/.9995 rounding edges, plain/blank/multi-byte strings (strings with quotes or backslashes are excluded and counted as excluded_string_class: C06 owns them); same non-trivial rule; distinct by serialised case",
-                cases: (20_000, 1_000_000),
+                cases: (20_000, 30_000_000),
                 strategy: Box::new(|_t| (0..ROWS as u16, params()).prop_map(|(row, p)| Case { row, p }).boxed()),
                 check: Box::new(check),
             }),
